@@ -84,6 +84,7 @@ def digit_component_dataset(rng):
 
 
 class WellFormed(Suite):
+    seasoned_rate = 0.15     # share of the cases run on algorithm objects that have served before (algos.seasoned)
     name = "wellformed"
     imports = ["Parser", "DatasetModel", "Judge.JC16", "Judge.JC03"]
     judge = "judge_wf"
@@ -102,9 +103,6 @@ class WellFormed(Suite):
         for _ in range(160 if tier == "quick" else 2500):
             cases.append({"s": rng.choice([gen.UNIFYING, gen.UNIFYING, gen.INDUCED, gen.PSEUDO, gen.EXTENDED, gen.GENERIC]),
                           "D": named_dataset(rng), "one": rng.random() < 0.5})
-        for c in cases:
-            if rng.random() < 0.15:
-                c["seasoned"] = True      # the algorithm objects have served before the judged call (algos.seasoned)
         return cases
 
     def run(self, case):
@@ -144,7 +142,6 @@ class WellFormed(Suite):
         acc["exceptions"] = acc.get("exceptions", 0) + sum(1 for r in out["runs"] if "err" in r)
         acc["string_names"] = acc.get("string_names", 0) + int(any(isinstance(x, str) for x in out["U"]))
         acc["non_dyadic_penalties"] = acc.get("non_dyadic_penalties", 0) + int(bool(case.get("nondyadic")))
-        acc["seasoned_algorithm_objects"] = acc.get("seasoned_algorithm_objects", 0) + int(bool(case.get("seasoned")))
         acc["one_element"] = acc.get("one_element", 0) + int(len(out["U"]) == 1)
         acc["several_rankings_returned"] = acc.get("several_rankings_returned", 0) + sum(1 for r in out["runs"] if len(r.get("cons", [])) > 1)
 
